@@ -139,6 +139,9 @@ def gen_ops(rng, cfg, nops):
         'update_repeat': rng.choice([0, 0.5, 1.5]),
         'module_compile': rng.choice([0, 0.3, 1.0]),
         'rebuild': rng.choice([0, 0.5, 1.0]) if cfg['kind'] == 'real' else 0,
+        'rebuild_without': rng.choice([0, 0.4, 0.8])
+        if cfg['kind'] == 'real' and 'SimpleClouds' in
+        cfg['model']['contribs'] else 0,
         'via_other': rng.choice([0, 0, 0.5, 1.5]),
     }
     kinds = sorted(w)
@@ -183,7 +186,7 @@ def gen_ops(rng, cfg, nops):
             # the vector written last is written again (after whatever
             # happened to the parameters in between)
             ops.append([k])
-        elif k in ('module_compile', 'rebuild'):
+        elif k in ('module_compile', 'rebuild', 'rebuild_without'):
             ops.append([k])
         elif k == 'via_other':
             # a second optimizer attached to the same model and observation
@@ -550,6 +553,37 @@ def execute(case, keep_text=False):
             k = op[0]
             out.bump('steps', 'ops')
             log.add('drv', 'op', op)
+            gone = None
+            if k in ('enable_fit', 'disable_fit', 'set_mode', 'set_boundary',
+                     'set_factor_boundary', 'set_prior', 'direct_write') and \
+                    op[1] not in ref.params:
+                gone = op[1]
+            elif k == 'via_other' and op[2] not in ref.params:
+                gone = op[2]
+            if gone is not None:
+                # a parameter the model no longer has (its component was
+                # removed before a rebuild): naming it is an error now
+                if k in ('direct_write', 'via_other'):
+                    continue
+                raised = False
+                try:
+                    if k == 'set_prior':
+                        opt.set_prior(gone, M.make_prior(op[2]))
+                    elif k in ('enable_fit', 'disable_fit'):
+                        getattr(opt, k)(gone)
+                    else:
+                        getattr(opt, k)(gone, op[2])
+                except Exception:
+                    raised = True
+                out.bump('probes', 'removed_parameter_named')
+                if not raised:
+                    viol('misuse-accepted', k + ':removed-parameter',
+                         '%s(%r) was accepted although the model has no such '
+                         'parameter any more' % (k, gone), step)
+                    raise Stop()
+                continue
+            if k == 'parfile':
+                op = [op[0], [e for e in op[1] if e[0] in ref.params], op[2]]
             if k in ('enable_fit', 'disable_fit'):
                 real_call(step, k, getattr(opt, k), op[1])
                 ref.params[op[1]]['fit'] = (k == 'enable_fit')
@@ -616,6 +650,11 @@ def execute(case, keep_text=False):
                 arg = [vec, tuple(vec), np.array(vec, dtype=float),
                        [np.float64(x) for x in vec]][how]
                 real_call(step, k, opt.update_model, arg)
+                if [float(x) for x in arg] != [float(x) for x in vec]:
+                    viol('argument-mutated', 'update_model', 'the vector '
+                         'handed to update_model was changed: %r -> %r'
+                         % (list(vec), [float(x) for x in arg]), step)
+                    raise Stop()
                 last_vec[0] = (ref.ncompiles, list(vec))
                 out.bump('steps', 'updates')
                 fitted = set()
@@ -674,6 +713,8 @@ def execute(case, keep_text=False):
                 # (values and the optimizer's user priors stay)
                 real_call(step, k, model.build)
                 for p0 in cfg['mparams']:
+                    if p0['name'] not in ref.params:
+                        continue
                     pr = ref.params[p0['name']]
                     pr['fit'] = p0['fit']
                     pr['mode'] = p0['mode']
@@ -681,6 +722,37 @@ def execute(case, keep_text=False):
                 for d0 in cfg['mderived']:
                     ref.derived[d0['name']]['compute'] = d0['compute']
                 out.bump('probes', 'model_rebuilt')
+                dirty_since_compile = True
+            elif k == 'rebuild_without':
+                if cfg['kind'] != 'real' or 'clouds_pressure' not in ref.params:
+                    continue
+                mols_ = [m_['name'] for m_ in cfg['model']['molecules']]
+                if sum(ref.values[m_] for m_ in mols_) > 0.9:
+                    continue
+                # the cloud deck is taken out of the model, which is built
+                # again: its parameter is gone, the rest is back at defaults
+                model.contribution_list[:] = [
+                    c_ for c_ in model.contribution_list
+                    if type(c_).__name__ != 'SimpleCloudsContribution']
+                real_call(step, k, model.build)
+                ref.order.remove('clouds_pressure')
+                del ref.params['clouds_pressure']
+                del ref.values['clouds_pressure']
+                for p0 in cfg['mparams']:
+                    if p0['name'] in ref.params:
+                        pr = ref.params[p0['name']]
+                        pr['fit'] = p0['fit']
+                        pr['mode'] = p0['mode']
+                        pr['bounds'] = list(p0['bounds'])
+                for d0 in cfg['mderived']:
+                    ref.derived[d0['name']]['compute'] = d0['compute']
+                if 'clouds_pressure' in model.fittingParameters:
+                    viol('views', 'rebuild:removed-parameter-still-listed',
+                         'clouds_pressure is still in the model\'s table '
+                         'after the cloud deck was removed and the model '
+                         'rebuilt', step)
+                    raise Stop()
+                out.bump('probes', 'component_removed_and_rebuilt')
                 dirty_since_compile = True
             elif k == 'update_repeat':
                 if last_vec[0] is None or last_vec[0][0] != ref.ncompiles \
